@@ -146,4 +146,37 @@ example : (srun handTable {} [.main, .read (.rune 0x1B), .main, .main, .main, .e
     .main, .read .eof, .main, .main, .main, .main, .main, .main, .main, .main, .main, .main]).map (fun r => (r.2, finished r.1)) =
     some ([.c0 0x1B, .eof], true) := by decide +kernel
 
+/-! ### why each generation bump is there (the schedules the harness found on the changed code) -/
+
+/-- lone ESC; the timer expires (callback parked in front of `Lock`); `Close()`; `run` leaves the loop
+    and runs to its end; only then the callback runs — the replay `sched M,R1b,M,M,M,X,M,K,M,M,M,M,M,M,M,C0,C0`
+    of `corpus/C08Sched`, statement by statement -/
+def lateCallbackAfterClose : List FLabel :=
+  [.main, .readRet (.rune 0x1B), .main, .main, .main, .main, .expire, .main, .closeSig,
+   .main, .main, .main, .main, .main, .main, .main, .cb 0, .cb 0, .cb 0]
+
+/-- **The bump after the loop is needed**: without `escGen++` in front of `emit(EOF{})` the callback
+    of a lone ESC that starts late still sees its own generation after `close(p.sequences)` and
+    sends on the closed channel (`panic`); the code as it is fails the check and emits nothing —
+    same schedule, statement by statement. -/
+theorem fine_needs_final_bump :
+    (FSys.runV .noFinalBump handTable {} lateCallbackAfterClose).map (fun r => r.2) = some [.eof, .panic] ∧
+    (FSys.runV .code handTable {} lateCallbackAfterClose).map (fun r => r.2) = some [.eof] ∧
+    FSys.runV .code handTable {} lateCallbackAfterClose = FSys.run handTable {} lateCallbackAfterClose := by
+  decide +kernel
+
+/-- lone ESC; the timer expires; the next read returns SUB (0x1A) and is parsed; then the callback runs -/
+def lateCallbackAfterSub : List FLabel :=
+  [.main, .readRet (.rune 0x1B), .main, .main, .main, .main, .expire, .main,
+   .main, .readRet (.rune 0x1A), .main, .main, .main, .main, .main, .cb 0, .cb 0, .cb 0]
+
+/-- **The bump belongs in `run`, before every transition** (seeded change C08-m2): with `escGen++`
+    moved into the `escape` state function a SUB (or CAN, ESC, end of input — handled by `anywhere`
+    itself) does not outdate the started callback, which then reports the Escape key after the
+    `C0 1A` that followed the ESC; the code as it is reports nothing. -/
+theorem fine_needs_bump_before_every_transition :
+    (FSys.runV .bumpInEscape handTable {} lateCallbackAfterSub).map (fun r => r.2) = some [.c0 0x1A, .c0 0x1B] ∧
+    (FSys.runV .code handTable {} lateCallbackAfterSub).map (fun r => r.2) = some [.c0 0x1A] := by
+  decide +kernel
+
 end VaxisModel.Props.C08Sched
